@@ -105,15 +105,18 @@ def expected_pars(S, tree, parents, node):
     return n, enc[n - 1]
 
 
-def check_program(fst, pi, src, tier, res, rects=True):
+def check_program(fst, pi, src, tier, res, rects=True, root=None, tag='', rep=None):
+    """root=None: a tree freshly built from src. Otherwise a live (edited) tree whose current source is src: the same location
+    laws hold for it."""
     try:
         S = X.Src(src)
+        tree = ast.parse(src)
     except SyntaxError:
         return
-    tree = ast.parse(src)
-    root = fst.FST(src, 'exec')
-    cidp = f'C06/p{pi}/'
-    rep = {'prog': pi}
+    if root is None:
+        root = fst.FST(src, 'exec')
+    cidp = f'C06/p{pi}/' + tag
+    rep = rep or {'prog': pi}
     parents = {}
     for p in ast.walk(tree):
         for f_, v in ast.iter_fields(p):
@@ -167,7 +170,7 @@ def check_program(fst, pi, src, tier, res, rects=True):
             # bloc
             if isinstance(node, (ast.stmt, ast.excepthandler)):
                 bs, be = s, e
-                if hasattr(node, 'body') and not isinstance(node, ast.Module):  # block statement
+                if (hasattr(node, 'body') or hasattr(node, 'cases')) and not isinstance(node, ast.Module):  # block statement
                     decos = getattr(node, 'decorator_list', None)
                     if decos:
                         d0 = S.span(decos[0])[0]
@@ -490,8 +493,33 @@ def check_fragments(fst, kind, part, res):
                 res.outcomes['fragment-locs-ok'] += 1
 
 
+DYN_KINDS = ('line_comment', 'replace', 'remove', 'insert')
+
+
+def check_after_edits(fst, pi, res):
+    """The location laws on trees that have just been edited: every cacheable location is queried first, one edit of a small
+    alphabet is applied, then every node of the live tree is judged against CPython positions / the token oracle of the new source."""
+    from .. import edits as E
+    from ..explore import warm_caches
+    from ..fstnav import live_vs_parse
+    src = PROGS[pi]
+    for op in E.enumerate_ops(src, nk=1, nks=1, forms=('src',), opts=({},), kinds=DYN_KINDS, lc_texts=('a much longer comment', None)):
+        root = fst.FST(src, 'exec')
+        warm_caches(root)
+        try:
+            E.apply(fst, root, op)
+        except Exception:  # noqa: BLE001
+            continue
+        if root.src == src or live_vs_parse(root, 'Module'):
+            continue  # nothing happened / the tree itself is wrong: C01's business
+        res.outcomes['edited-tree-checked'] += 1
+        check_program(fst, pi, root.src, 'quick', res, rects=False, root=root, tag='after ' + E.op_id(op) + '/',
+                      rep={'prog': pi, 'after': op})
+
+
 def shards(tier):
     out = [{'prog': i} for i in range(len(PROGS))]
+    out += [{'dyn': i} for i in range(len(PROGS)) if len(PROGS[i]) <= 160]
     out += [{'frag': k, 'part': [r, 4]} for k in ('expr', 'pattern') for r in range(4)]
     if tier == 'thorough':
         import glob
@@ -511,12 +539,24 @@ def run_shard(desc, tier, res):
     if 'frag' in desc:
         check_fragments(fst, desc['frag'], desc['part'], res)
         return
+    if 'dyn' in desc:
+        check_after_edits(fst, desc['dyn'], res)
+        return
     check_program(fst, desc['prog'], PROGS[desc['prog']], tier, res)
     res.sample({'program': PROGS[desc['prog']]})
 
 
 def replay(rep, res):
     import fst
+    if 'after' in rep:
+        from .. import edits as E
+        from ..explore import warm_caches
+        root = fst.FST(PROGS[rep['prog']], 'exec')
+        warm_caches(root)
+        E.apply(fst, root, rep['after'])
+        print(repr(root.src))
+        check_program(fst, rep['prog'], root.src, 'quick', res, rects=False, root=root, tag='after/', rep=rep)
+        return
     if 'frag' in rep:
         global frag_cases
         orig = frag_cases
